@@ -99,6 +99,10 @@ func main() {
 		file := filepath.Base(in)
 		file = file[0 : len(file)-len(filepath.Ext(in))] // Remove extension.
 
-		os.WriteFile(filepath.Join(options.out, fmt.Sprintf("%s.%s", file, conv.Extension())), []byte(dump), 0777)
+		err = os.WriteFile(filepath.Join(options.out, fmt.Sprintf("%s.%s", file, conv.Extension())), []byte(dump), 0777)
+
+		if err != nil {
+			panic(err)
+		}
 	}
 }
